@@ -56,6 +56,10 @@ def run_task(name, build, mode="U"):
         res.meta = meta or {}
         I = Interp(world, timeout_ms=int(res.meta.get("timeout_ms", 20000)))
         I.fail_fast = bool(res.meta.get("fail_fast", False))
+        import os
+
+        if os.environ.get("VERIF_XCHECK"):
+            I.xcheck = external_backends
         I.retry_factor = int(res.meta.get("retry_factor", 2))
         executed = {}
         orig = I.exec_function
@@ -77,6 +81,18 @@ def run_task(name, build, mode="U"):
         for p in paths:
             outcomes[p.outcome[0]] = outcomes.get(p.outcome[0], 0) + 1
         res.meta["outcomes"] = outcomes
+        if I.xresults:
+            tally, disagree = {}, []
+            for nm, ans in I.xresults:
+                for be, a in ans.items():
+                    tally.setdefault(be, {}).setdefault(a, 0)
+                    tally[be][a] += 1
+                    if a == "sat":
+                        disagree.append(f"{nm}: {be} answers sat where z3-{z3.get_version_string()} proved unsat")
+            res.meta["xcheck"] = tally
+            if disagree:
+                res.status = "error"
+                res.detail = "back ends disagree: " + "; ".join(disagree[:5])
         # vacuity guard: at least one path must reach the end with satisfiable premises
         live = [p for p in paths if p.outcome[0] in ("return", "raise") or (p.outcome[0] == "stop" and "loop body done" in p.outcome[1])]
         res.cover = bool(live)
@@ -114,6 +130,29 @@ def run_task(name, build, mode="U"):
         res.detail = f"{type(e).__name__}: {e}\n{traceback.format_exc()[-1500:]}"
     res.wall_s = round(time.time() - t0, 3)
     return res
+
+
+def external_backends(smt2, timeout_s=10):
+    """Re-run one proved query (SMT-LIB 2 dump) on the other installed solvers."""
+    import os
+    import subprocess
+    import tempfile
+
+    out = {}
+    with tempfile.NamedTemporaryFile("w", suffix=".smt2", delete=False) as f:
+        f.write(smt2)
+        path = f.name
+    try:
+        for be, cmd in (("z3-4.8.12", ["/usr/bin/z3", "-smt2", f"-T:{timeout_s}", path]), ("cvc5-1.0", ["/usr/bin/cvc5", f"--tlimit={timeout_s * 1000}", path])):
+            try:
+                p = subprocess.run(cmd, capture_output=True, text=True, timeout=timeout_s + 5)
+                first = (p.stdout.strip().splitlines() or ["error"])[0].strip()
+                out[be] = first if first in ("sat", "unsat", "unknown") else ("unknown" if "timeout" in first or "interrupted" in p.stdout + p.stderr else "error")
+            except Exception:
+                out[be] = "unknown"
+    finally:
+        os.unlink(path)
+    return out
 
 
 def harness(src, modname, name=None):
